@@ -256,6 +256,19 @@ func (dir *ufsDir) dotu(path string, d os.FileInfo, upool Users, sysMode *syscal
 	}
 }
 
+// fidAux returns the Ufs state of the fid a request operates on. A fid that
+// a Twalk or Tattach still in progress has put into the table has none yet
+// (a client may pipeline a request on the new fid behind them): that
+// request is answered with an error and nil is returned.
+func fidAux(req *SrvReq) *ufsFid {
+	if fid, ok := req.Fid.Aux.(*ufsFid); ok && fid != nil {
+		return fid
+	}
+
+	req.RespondError(Eunknownfid)
+	return nil
+}
+
 func (*Ufs) ConnOpened(conn *Conn) {
 	if conn.Srv.Debuglevel > 0 {
 		log.Println("connected")
@@ -308,7 +321,10 @@ func (ufs *Ufs) Attach(req *SrvReq) {
 func (*Ufs) Flush(req *SrvReq) {}
 
 func (ufs *Ufs) Walk(req *SrvReq) {
-	fid := req.Fid.Aux.(*ufsFid)
+	fid := fidAux(req)
+	if fid == nil {
+		return
+	}
 	tc := req.Tc
 
 	// not fid.stat(): it stores its result in the fid, and any number of
@@ -372,7 +388,10 @@ func (ufs *Ufs) Walk(req *SrvReq) {
 }
 
 func (*Ufs) Open(req *SrvReq) {
-	fid := req.Fid.Aux.(*ufsFid)
+	fid := fidAux(req)
+	if fid == nil {
+		return
+	}
 	tc := req.Tc
 	err := fid.stat()
 	if err != nil {
@@ -391,7 +410,10 @@ func (*Ufs) Open(req *SrvReq) {
 }
 
 func (ufs *Ufs) Create(req *SrvReq) {
-	fid := req.Fid.Aux.(*ufsFid)
+	fid := fidAux(req)
+	if fid == nil {
+		return
+	}
 	tc := req.Tc
 	err := fid.stat()
 	if err != nil {
@@ -433,7 +455,12 @@ func (ufs *Ufs) Create(req *SrvReq) {
 			return
 		}
 
-		e = os.Link(ofid.Aux.(*ufsFid).path, path)
+		if oaux, ok := ofid.Aux.(*ufsFid); ok && oaux != nil {
+			e = os.Link(oaux.path, path)
+		} else {
+			e = syscall.ENOENT
+		}
+
 		ofid.DecRef()
 
 	case tc.Perm&DMNAMEDPIPE != 0:
@@ -489,7 +516,10 @@ func (ufs *Ufs) Create(req *SrvReq) {
 }
 
 func (*Ufs) Read(req *SrvReq) {
-	fid := req.Fid.Aux.(*ufsFid)
+	fid := fidAux(req)
+	if fid == nil {
+		return
+	}
 	tc := req.Tc
 	rc := req.Rc
 	err := fid.stat()
@@ -585,7 +615,10 @@ func (*Ufs) Read(req *SrvReq) {
 }
 
 func (*Ufs) Write(req *SrvReq) {
-	fid := req.Fid.Aux.(*ufsFid)
+	fid := fidAux(req)
+	if fid == nil {
+		return
+	}
 	tc := req.Tc
 	err := fid.stat()
 	if err != nil {
@@ -605,7 +638,10 @@ func (*Ufs) Write(req *SrvReq) {
 func (*Ufs) Clunk(req *SrvReq) { req.RespondRclunk() }
 
 func (*Ufs) Remove(req *SrvReq) {
-	fid := req.Fid.Aux.(*ufsFid)
+	fid := fidAux(req)
+	if fid == nil {
+		return
+	}
 	err := fid.stat()
 	if err != nil {
 		req.RespondError(err)
@@ -622,7 +658,10 @@ func (*Ufs) Remove(req *SrvReq) {
 }
 
 func (*Ufs) Stat(req *SrvReq) {
-	fid := req.Fid.Aux.(*ufsFid)
+	fid := fidAux(req)
+	if fid == nil {
+		return
+	}
 	err := fid.stat()
 	if err != nil {
 		req.RespondError(err)
@@ -658,7 +697,10 @@ func lookup(uid string, group bool) (uint32, *Error) {
 }
 
 func (u *Ufs) Wstat(req *SrvReq) {
-	fid := req.Fid.Aux.(*ufsFid)
+	fid := fidAux(req)
+	if fid == nil {
+		return
+	}
 	err := fid.stat()
 	if err != nil {
 		req.RespondError(err)
